@@ -22,6 +22,7 @@ import runlayer
 import vlib
 
 PID = "C20"
+CONFIRM_BY_REPLAY = True   # a new deviation is reported only if replaying its stored case repeats it
 META = {
     "cat": "fault_enumeration",
     "text": "Every hook event of a run with a build directory (single job, thread executor and process executor incl. its workers) is used as a "
